@@ -1,0 +1,33 @@
+#ifndef TBFVERIFHOOKS_HPP
+#define TBFVERIFHOOKS_HPP
+
+// Verification hooks. Everything in this file is compiled only when TBFMM_VERIF is defined;
+// with the guard off this header is empty and no other header changes.
+#ifdef TBFMM_VERIF
+
+#include <cstdio>
+#include <cstdlib>
+#include <atomic>
+
+namespace TbfVerif {
+
+inline std::atomic<long>& BoundsChecksCounter(){
+    static std::atomic<long> counter{0};
+    return counter;
+}
+
+// Called by the block viewers before every element access: all sub-blocks of a group live in one
+// allocation, so an index that runs off its sub-block into the next one is invisible to red-zone tools.
+inline void CheckViewerBounds(const char* inViewer, const long inIdx, const long inNbItems, const long inIdxRow, const long inNbRows){
+    BoundsChecksCounter().fetch_add(1, std::memory_order_relaxed);
+    if(inIdx < 0 || inIdx >= inNbItems || inIdxRow < 0 || inIdxRow >= inNbRows){
+        fprintf(stderr, "tbfmm_verif: Assertion `viewer index in range' failed. %s: item %ld of %ld, row %ld of %ld\n",
+                inViewer, inIdx, inNbItems, inIdxRow, inNbRows);
+        abort();
+    }
+}
+
+}
+
+#endif
+#endif
